@@ -15,6 +15,9 @@ func histSig(c clientCase) uint64 {
 	h := evid.NewH().U(uint64(c.RTO)).I(b2i(c.NoRetransmit)).I(b2i(c.Fallback)).I(b2i(c.NoConnClose))
 	for _, o := range c.Ops {
 		h.Str(o.Op).I(o.ID).I(o.Size).Str(o.At).U(uint64(o.RTO)).Str(o.Junk)
+		if o.Re != nil {
+			h.Str("re").I(o.Re.ID)
+		}
 	}
 
 	return h.Sum()
@@ -50,7 +53,7 @@ func c10Notes(rec *evid.Rec) {
 }
 
 var c10Alphabet = []hop{
-	{Op: "start", ID: 0, Size: 28}, {Op: "start", ID: 1, Size: 2060},
+	{Op: "start", ID: 0, Size: 28}, {Op: "start", ID: 1, Size: 2060, Re: &hop{Op: "start", ID: 1, Size: 24}},
 	{Op: "respond", ID: 0}, {Op: "respond", ID: 1}, {Op: "unknown", ID: 0}, {Op: "garbage", Junk: "0001000021"},
 	{Op: "tick", At: "before"}, {Op: "tick", At: "at"}, {Op: "tick", At: "after"},
 	{Op: "fail", ID: 0}, {Op: "close"},
@@ -118,6 +121,11 @@ func genHop(ids int) *rapid.Generator[hop] {
 		case "start", "do", "indicate":
 			h.ID = rapid.IntRange(0, ids-1).Draw(rt, "id")
 			h.Size = rapid.SampledFrom([]int{20, 28, 100, 1500, 1504, 2044, 2048, 2052, 3024, 9000}).Draw(rt, "size")
+			if op == "start" && rapid.IntRange(0, 4).Draw(rt, "reenter") == 0 {
+				// the handler starts a new transaction with the id that has just completed (another id
+				// could expire in the same tick, which would make the expected result order-dependent)
+				h.Re = &hop{Op: "start", ID: h.ID, Size: rapid.SampledFrom([]int{20, 24, 2052}).Draw(rt, "reSize")}
+			}
 		case "respond":
 			h.ID = rapid.IntRange(0, ids-1).Draw(rt, "id")
 			h.Size = rapid.SampledFrom([]int{0, 0, 64, 512, 1024}).Draw(rt, "rsize")
